@@ -8,6 +8,7 @@ src, sid = sys.argv[1], sys.argv[2]
 props = sys.argv[3:]
 tier = os.environ.get("SEED_TIER", "quick")
 wt = "/tmp/ev-" + sid
+VERIF = os.path.dirname(os.path.dirname(os.path.abspath(__file__)))  # the tree the checks run from (a snapshot under vp run)
 ENV = dict(os.environ)
 
 
@@ -59,7 +60,7 @@ try:
     for p in props:
         t0 = time.time()
         env = dict(ENV, VERIF_REPO=wt)
-        r = subprocess.run(["./check", p, "--tier", tier], cwd="/verif", capture_output=True, text=True, env=env, timeout=6000)
+        r = subprocess.run(["./check", p, "--tier", tier], cwd=VERIF, capture_output=True, text=True, env=env, timeout=6000)
         viol = [l for l in r.stdout.splitlines() if l.startswith("VIOLATION")]
         labels = set()
         for l in viol[:40]:
